@@ -5,6 +5,7 @@ import (
 	"errors"
 	"fmt"
 	"io"
+	"log/slog"
 	"net"
 	"net/http"
 	"net/http/httptest"
@@ -305,6 +306,7 @@ func execSession(in val.V) val.V {
 func execRealServer(in val.V) val.V {
 	prov := &realProvider{pool: poolOf(in.At(1)), calls: in.At(2).Items()}
 	srv := &sse.Server{Provider: prov}
+	withLogger(srv, in)
 	if p := in.At(3); p.Present() {
 		srv.OnSession = func(w http.ResponseWriter, _ *http.Request) ([]string, bool) {
 			setPreset(w, p)
@@ -397,6 +399,7 @@ func execServe(in val.V) val.V {
 	}
 	prov := &recProvider{rec: rec, server: &server, pool: poolOf(in.At(4)), calls: in.At(5).Items(), perr: in.At(6)}
 	srv := &sse.Server{Provider: prov}
+	withLogger(srv, in)
 	if ons := in.At(3); ons.Present() {
 		o := ons.At(0)
 		srv.OnSession = func(ow http.ResponseWriter, r *http.Request) ([]string, bool) {
@@ -803,5 +806,14 @@ func genSession(c *Ctx) {
 			}
 			c.Emit(val.L(val.N(2), val.List(msgs), val.List(calls), pre))
 		}
+	}
+}
+
+// withLogger sets Server.Logger for half of the cases (a deterministic function of the input): logging must not
+// change what ServeHTTP does.
+func withLogger(srv *sse.Server, in val.V) {
+	if len(val.String(in))%2 == 0 {
+		l := slog.New(slog.NewTextHandler(io.Discard, nil))
+		srv.Logger = func(*http.Request) *slog.Logger { return l }
 	}
 }
